@@ -23,6 +23,9 @@ def G(pid, mode, fn, m, n, props, kind="owned", bw=None, extra=None, timeout=900
         d.update(extra)
     tag = "%dx%d%s.%s%s" % (m, n, (".bw%d" % bw) if bw is not None else "", kind, "".join(".%s%s" % (k.lower(), v) for k, v in sorted((extra or {}).items())))
     t = list(tus or TUS)
+    if naive_pluq:
+        # solve.c is compiled with _mzd_pluq / mzd_pluq substituted by the library's own naive routine (same certificate contract, see DESIGN.md C06)
+        t = [x if x != "solve" else "solve|" + "|".join(NAIVE_PLUQ) for x in t]
     return Group(gid="B.%s.%s" % (mode.lower(), tag), props=list(props), harness="b_alg.c", function=fn, layer="B", defines=d,
                  tus=t, assert_mode=True, unwind=unwind, refine=True, spec_unwind=max(d["VRMAX"], d["VCMAX"], 6) + 2, config=config, bounded=True,
                  bound_note="shape %s, all operand bits symbolic%s%s" % (tag, "; _mzd_pluq replaced by the library's _mzd_pluq_naive (same certificate contract, see DESIGN.md C06)" if naive_pluq else "", note),
